@@ -140,12 +140,139 @@ var roleTable = []roleSpec{
 		sig := fi.Obj.Type().(*types.Signature)
 		return sig.Results().Len() == 1 && strings.HasSuffix(sig.Results().At(0).Type().String(), "route.node") && sig.Params().Len() >= 5
 	}},
+	{"pkg/protocol/http1/ext", "", "appendBodyFixedSize", func(w *core.World, fi *core.FuncInfo) bool {
+		// (reader, dst, n) → ([]byte, error): appends exactly n body bytes, called from ReadBody
+		sig := fi.Obj.Type().(*types.Signature)
+		return sig.Params().Len() == 3 && sig.Results().Len() == 2 && sig.Params().At(2).Type().String() == "int" &&
+			calledFrom(w, w.Func("pkg/protocol/http1/ext", "", "ReadBody"), fi) && !strings.Contains(fi.Obj.Name(), "Chunked") && !strings.Contains(fi.Obj.Name(), "Identity")
+	}},
+	{"pkg/common/utils", "", "bufApp", func(w *core.World, fi *core.FuncInfo) bool {
+		// the lazy-buffer append helper CleanPath calls with (&buf, s, w, c)
+		return fi.Obj.Type().(*types.Signature).Params().Len() == 4 && calledFrom(w, w.Func("pkg/common/utils", "", "CleanPath"), fi)
+	}},
+	{"pkg/app", "fsFile", "decReadersCount", func(w *core.World, fi *core.FuncInfo) bool {
+		f := w.Field("pkg/app", "fsFile", "readersCount")
+		found := false
+		ast.Inspect(fi.Decl.Body, func(n ast.Node) bool {
+			if x, ok := n.(*ast.IncDecStmt); ok && x.Tok.String() == "--" && f != nil && usedVar(fi.Pkg.TypesInfo, x.X) == f {
+				found = true
+			}
+			return true
+		})
+		return found && fi.Obj.Type().(*types.Signature).Params().Len() == 0
+	}},
+	{"pkg/network/standard", "Conn", "peekBuffer", func(w *core.World, fi *core.FuncInfo) bool {
+		sig := fi.Obj.Type().(*types.Signature)
+		return sig.Params().Len() == 2 && sig.Results().Len() == 0 && calledFrom(w, w.Func("pkg/network/standard", "Conn", "Peek"), fi)
+	}},
+	{"pkg/network/standard", "transport", "updateActive", func(w *core.World, fi *core.FuncInfo) bool {
+		return callsWhere(fi, func(f *types.Func, _ *ast.CallExpr) bool { return f.Name() == "AddInt32" })
+	}},
 	// ---- buffered connection
 	{"pkg/network/standard", "Conn", "fill", func(w *core.World, fi *core.FuncInfo) bool {
 		sig := fi.Obj.Type().(*types.Signature)
 		return sig.Params().Len() == 1 && sig.Results().Len() == 1 && sig.Results().At(0).Type().String() == "error" &&
 			calledFrom(w, w.Func("pkg/network/standard", "Conn", "Peek"), fi)
 	}},
+}
+
+// fieldRole finds a renamed private field by how the package uses it.
+type fieldRole struct {
+	rel, typ, name string
+	is             func(w *core.World, f *types.Var, uses []fieldUse) bool
+}
+
+type fieldUse struct {
+	fi   *core.FuncInfo
+	node ast.Node // the statement/expression using the field
+	kind string   // "inc", "dec", "addr-arg:<callee>", "assign", "read"
+}
+
+var fieldRoleTable = []fieldRole{
+	{"pkg/app", "fsFile", "readersCount", func(w *core.World, f *types.Var, uses []fieldUse) bool {
+		inc, dec := false, false
+		for _, u := range uses {
+			inc = inc || u.kind == "inc"
+			dec = dec || u.kind == "dec"
+		}
+		return inc && dec
+	}},
+	{"pkg/network/standard", "transport", "active", func(w *core.World, f *types.Var, uses []fieldUse) bool {
+		for _, u := range uses {
+			if u.kind == "addr-arg:AddInt32" {
+				return true
+			}
+		}
+		return false
+	}},
+	{"pkg/protocol/http1", "HostClient", "connsCount", func(w *core.World, f *types.Var, uses []fieldUse) bool {
+		inc, dec := false, false
+		for _, u := range uses {
+			inc = inc || u.kind == "inc"
+			dec = dec || u.kind == "dec"
+		}
+		return inc && dec
+	}},
+}
+
+func installFieldRoles(w *core.World, r *core.Report) {
+	if w.FieldAlias == nil {
+		w.FieldAlias = map[string]*types.Var{}
+	}
+	for _, fr := range fieldRoleTable {
+		key := fr.rel + "|" + fr.typ + "|" + fr.name
+		if w.FieldAlias[key] != nil || w.Field(fr.rel, fr.typ, fr.name) != nil {
+			continue
+		}
+		n := w.Named(fr.rel, fr.typ)
+		if n == nil {
+			continue
+		}
+		st, _ := n.Underlying().(*types.Struct)
+		if st == nil {
+			continue
+		}
+		uses := map[*types.Var][]fieldUse{}
+		for _, fi := range declaredNonTest(w) {
+			if fi.Decl.Body == nil || w.RelPkg(fi.Obj.Pkg()) != fr.rel {
+				continue
+			}
+			info := fi.Pkg.TypesInfo
+			ast.Inspect(fi.Decl.Body, func(nd ast.Node) bool {
+				switch x := nd.(type) {
+				case *ast.IncDecStmt:
+					if v := usedVar(info, x.X); v != nil && v.IsField() {
+						k := "inc"
+						if x.Tok.String() == "--" {
+							k = "dec"
+						}
+						uses[v] = append(uses[v], fieldUse{fi, x, k})
+					}
+				case *ast.CallExpr:
+					if f := calleeOf(info, x); f != nil {
+						for _, a := range x.Args {
+							if u, ok := unparen(a).(*ast.UnaryExpr); ok && u.Op.String() == "&" {
+								if v := usedVar(info, u.X); v != nil && v.IsField() {
+									uses[v] = append(uses[v], fieldUse{fi, x, "addr-arg:" + f.Name()})
+								}
+							}
+						}
+					}
+				}
+				return true
+			})
+		}
+		var cands []*types.Var
+		for i := 0; i < st.NumFields(); i++ {
+			if f := st.Field(i); fr.is(w, f, uses[f]) {
+				cands = append(cands, f)
+			}
+		}
+		if len(cands) == 1 {
+			w.FieldAlias[key] = cands[0]
+			r.Unit("role: field %s.%s.%s is no longer declared; %s plays that role (found by how it is used)", fr.rel, fr.typ, fr.name, cands[0].Name())
+		}
+	}
 }
 
 // installRoles resolves renamed private anchors for world w. It is idempotent per world.
@@ -157,6 +284,7 @@ func installRoles(w *core.World, r *core.Report) {
 		w.Alias = map[string]*core.FuncInfo{}
 	}
 	esp.Aliases = map[string]*types.Func{}
+	installFieldRoles(w, r)
 	for _, rs := range roleTable {
 		if w.Func(rs.rel, rs.recv, rs.name) != nil && w.Alias[rs.rel+"|"+rs.recv+"|"+rs.name] == nil {
 			continue
